@@ -149,6 +149,18 @@ def check(ctx):
     ctx.ob("ORD-2", rb, "existing column is used as is", has[0][3] if has else node, ok,
            "an input that has the column contributes it unchanged" if ok else "an existing column is not used as is", nontrivial=False)
     n_lack = 0
+    lack2 = []
+    for v, f_, owner, at in lack:
+        # a part held in a temporary (possibly after an inlined helper) stands for its definitions; a defensive None
+        # ("no reference frame has the column") is not a part
+        if isinstance(v, ast.Name):
+            dvs = [d.value for d in defs_reaching(owner, v.id, at) if d.value is not None]
+            dvs = [x for x in dvs if not (isinstance(x, ast.Constant) and x.value is None)]
+            if dvs:
+                lack2 += [(x, f_, owner, at) for x in dvs]
+                continue
+        lack2.append((v, f_, owner, at))
+    lack = lack2
     for v, f_, owner, at in lack:
         n_lack += 1
         b = pmatch(f"__.fast([_V], _T).repeat({D}.nrow)", v)
